@@ -121,56 +121,3 @@ Proof.
     apply memN_In in Hh. congruence.
 Qed.
 
-(* ================================================================================= *)
-(* 2. The faithful model violates agreement: DESIGN section 7, C01-a                 *)
-(*    n = 5, t = 2, only member 1 corrupt; it behaves honestly except that it        *)
-(*    publishes the points of f + 7 (x-2)(x-3) in phase 7.                           *)
-(* ================================================================================= *)
-
-Definition wit_cfg : cfg := {| q := bn254_order; gn := 5; gt := 2; csess := 1; ops := [1; 2; 3; 4; 5] |}.
-Definition wit_a : list Z := [3; 1; 4]%Z.
-Definition wit_b : list Z := [1; 5; 9]%Z.
-Definition wit_script : script :=
-  let Q := bn254_order in
-  {| adv1 := [wrap wit_cfg (EphPub 1 1 (map (fun j => (j, ek 1 j)) [2; 3; 4; 5]))];
-     adv3 := [wrap wit_cfg (Shares 1 1 (map (fun j => (j, Enc (ecdh (ek 1 j) (ek j 1)) (eval Q wit_a j) (eval Q wit_b j)))
-                                            [2; 3; 4; 5]));
-              wrap wit_cfg (Commits 1 1 (combine wit_a wit_b))];
-     adv4 := [wrap wit_cfg (SAccuse 1 1 [])];
-     (* 3 + x + 4x^2 + 7(x-2)(x-3) = 45 - 34x + 11x^2 *)
-     adv7 := [wrap wit_cfg (Points 1 1 [45; (-34) mod Q; 11]%Z)];
-     adv8 := [wrap wit_cfg (PAccuse 1 1 [])];
-     adv10 := [wrap wit_cfg (Reveal 1 1 [])];
-     order := [] |}.
-Definition wit_input : input :=
-  {| i_cfg := wit_cfg;
-     i_honest := [ {| h_id := 2; h_coefA := [11; 12; 13]%Z; h_coefB := [21; 22; 23]%Z |};
-                   {| h_id := 3; h_coefA := [31; 32; 33]%Z; h_coefB := [41; 42; 43]%Z |};
-                   {| h_id := 4; h_coefA := [51; 52; 53]%Z; h_coefB := [61; 62; 63]%Z |};
-                   {| h_id := 5; h_coefA := [71; 72; 73]%Z; h_coefB := [81; 82; 83]%Z |} ];
-     i_script := wit_script |}.
-
-(* the two groups of honest members end with different keys, and 4, 5 disqualify 2, 3 *)
-Lemma wit_keys :
-  exists a2 d2 k2 s2 p2 a4 d4 k4 s4 p4,
-    In (2, Finished a2 d2 k2 s2 p2) (run wit_input) /\
-    In (4, Finished a4 d4 k4 s4 p4) (run wit_input) /\
-    k2 <> k4 /\ In 2 (a4 ++ d4) /\ In 3 (a4 ++ d4).
-Proof.
-  remember (run wit_input) as r eqn:E. vm_compute in E. subst r.
-  do 10 eexists. split; [left; reflexivity|]. split; [right; right; left; reflexivity|].
-  split; [discriminate|]. split; cbn; auto.
-Qed.
-
-Lemma agreement_refuted :
-  exists i : input,
-    well_formed {| c_in := i; c_obs := map (fun h => (h_id h, OFailed)) (i_honest i) |} = true /\
-    corrupt_count i = 1 /\ covered i = true /\
-    ~ agreement (run i) /\ ~ never_marked (honest_ids i) (run i).
-Proof.
-  exists wit_input. split; [vm_compute; reflexivity|]. split; [reflexivity|]. split; [reflexivity|].
-  destruct wit_keys as (a2 & d2 & k2 & s2 & p2 & a4 & d4 & k4 & s4 & p4 & H2 & H4 & Hk & Hm2 & Hm3).
-  split.
-  - intros Hag. destruct (Hag _ _ _ _ _ _ _ _ _ _ _ _ H2 H4) as [E _]. exact (Hk E).
-  - intros Hnm. apply (Hnm _ _ _ _ _ _ 2 H4 Hm2). cbn. auto.
-Qed.
